@@ -166,7 +166,7 @@ fn emit_log(tok: &str) {
     // When the subscriber's filter is WARN (a quarter of the tracing runs) every generated event is a
     // warning - an `info!` would be filtered out, and no Log event is owed for it.
     if run_ctx().warn_filter {
-        match tok.bytes().map(u32::from).sum::<u32>() % 3 {
+        match tok.bytes().map(u32::from).sum::<u32>() % if run_ctx().plan.plain_logs { 2 } else { 3 } {
             0 => tracing::warn!("{tok}"),
             1 => tracing::error!("first line\nsecond line {tok}"),
             _ => tracing::warn_span!("user_inner", depth = 1).in_scope(|| tracing::warn!("inner span {tok}")),
@@ -174,7 +174,10 @@ fn emit_log(tok: &str) {
         return;
     }
     // message shapes: plain, multi-line, and containing the collector's `__` separator
-    match tok.bytes().map(u32::from).sum::<u32>() % 9 {
+    let shape = tok.bytes().map(u32::from).sum::<u32>() % 9;
+    // (plans without user spans: the span-making shapes fall back to span-less ones)
+    let shape = if run_ctx().plan.plain_logs && matches!(shape, 4 | 6 | 8) { shape - 3 } else { shape };
+    match shape {
         0 => tracing::info!("{tok}"),
         // from a real helper thread that enters the callback's span (run in strict hand-off: this thread
         // blocks until the helper is done, so the schedule stays the simulator's)
@@ -258,6 +261,9 @@ fn eager_fault(kind: CbKind, site: &str, world: Option<&mut SimWorld>, scenario:
 #[cfg(feature = "tracing")]
 pub fn emit_on_behalf() {
     let Some(ctx) = RUN.with(|r| r.borrow().clone()) else { return };
+    if ctx.plan.plain_logs {
+        return;
+    }
     let Some((span, idx)) = ctx.behalf.borrow_mut().take() else { return };
     if ctx.cb_log.borrow()[idx].exit.is_some() {
         return;
